@@ -93,7 +93,7 @@ Theorem C07_initializer_clash_twice_refuted :
 Proof. exact initializer_clash_twice_refuted. Qed.
 Print Assumptions C07_initializer_clash_twice_refuted.
 
-(* with proposed_fixes/C07_initializer_name_clash.diff every used initializer stays registered, for all inputs *)
+(* with proposed_fixes/ready/C07_01_initializer_name_clash.diff every used initializer stays registered, for all inputs *)
 Theorem C07_initializer_clash_fixed : forall site used other new i,
   inits_preserved used i (add_inits repaired site used other new i).
 Proof. exact initializer_clash_fixed. Qed.
@@ -185,7 +185,7 @@ Theorem C07_fresh_name_shadows_outer_refuted : wf_graphb ex_shadow_after = false
 Proof. exact fresh_name_shadows_outer_refuted. Qed.
 Print Assumptions C07_fresh_name_shadows_outer_refuted.
 
-(* with proposed_fixes/C07_fresh_names_unique_in_model.diff: as many names as asked, new and pairwise distinct *)
+(* with proposed_fixes/ready/C07_02_fresh_names_unique_in_model.diff: as many names as asked, new and pairwise distinct *)
 Theorem C07_fresh_names_fixed : forall k used,
   List.length (fresh_seq used k) = k /\ NoDup (fresh_seq used k) /\ forall nm, In nm (fresh_seq used k) -> ~ In nm used.
 Proof. exact fresh_names_fixed. Qed.
@@ -226,7 +226,7 @@ Theorem C07_function_constant_import_refuted :
 Proof. exact fn_constant_import_refuted. Qed.
 Print Assumptions C07_function_constant_import_refuted.
 
-(* with proposed_fixes/C07_as_function_constant_default_domain_import.diff (filter by the domains of the body) *)
+(* with proposed_fixes/ready/C07_04_as_function_constant_default_domain_import.diff (filter by the domains of the body) *)
 Theorem C07_function_constant_import_fixed : forall site isfn i q fs ov fs' fd,
   add_function site isfn i q fs = Some (ov, fs') ->
   dget fkey_eqb (fq_dom q, fq_name q, ov) fs' = Some fd ->
@@ -245,7 +245,7 @@ Theorem C07_returned_value_as_read_refuted :
 Proof. exact returned_value_as_read_refuted. Qed.
 Print Assumptions C07_returned_value_as_read_refuted.
 
-(* repaired (splice_names true; proposed_fixes/ready/C07_05): no graph input is renamed, whatever the replacement returns *)
+(* repaired (splice_names true; proposed_fixes/ready/C07_05_returned_existing_value_keeps_its_name.diff): no graph input is renamed, whatever the replacement returns *)
 Theorem C07_returned_value_fixed : forall created pinned is_fwd olds news vs outs fresh r inputs,
   splice_names true created pinned is_fwd olds news vs outs fresh = Some r ->
   (forall x, In x inputs -> In x pinned /\ ~ In x created /\ x < fresh) ->
